@@ -265,7 +265,8 @@ pub fn op_hand(mode: &str, np: usize, script: &str) -> String {
     let script_owned: Vec<String> = script.split(';').map(|s| s.to_string()).collect();
     let mode = mode.to_string();
     let r = catch(|| {
-        let rt = tokio::runtime::Builder::new_current_thread().enable_all().start_paused(true).build().unwrap();
+        // one blocking thread: file operations of the task (tokio::fs) and the barrier below share one FIFO queue
+        let rt = tokio::runtime::Builder::new_current_thread().enable_all().start_paused(true).max_blocking_threads(1).build().unwrap();
         rt.block_on(async move {
             let info_hash = [7u8; 20];
             let own_id = *b"-VF0001-000000000000";
@@ -341,8 +342,15 @@ pub fn op_hand(mode: &str, np: usize, script: &str) -> String {
                 // run the task until it is quiet
                 let mut quiet = 0;
                 let mut rounds = 0;
-                while quiet < 4 && rounds < 400 {
+                while quiet < 5 && rounds < 400 {
                     env.progress = false;
+                    for _ in 0..6 {
+                        tokio::task::yield_now().await;
+                    }
+                    // barrier: every file operation the task has queued so far (write, rename, read) is done
+                    // when this no-op, queued behind it on the single blocking thread, has run. Quiescence is
+                    // therefore independent of how slow the machine is.
+                    let _ = tokio::task::spawn_blocking(|| ()).await;
                     for _ in 0..6 {
                         tokio::task::yield_now().await;
                     }
@@ -351,7 +359,6 @@ pub fn op_hand(mode: &str, np: usize, script: &str) -> String {
                         quiet = 0;
                     } else {
                         quiet += 1;
-                        std::thread::sleep(std::time::Duration::from_micros(150));
                     }
                     rounds += 1;
                 }
